@@ -24,6 +24,7 @@ var deviationSignature = map[string]string{
 	"alias":    "c11-reviver-walk-aliasing",
 	"proplist": "c11-property-list-index",
 	"gapbytes": "c11-gap-truncated-in-bytes",
+	"livekeys": "c11-stringify-live-keys",
 }
 
 func init() {
@@ -450,6 +451,16 @@ func explainStringify(c *sCase, exp, obs string, ores rj.StringifyResult, olog [
 		o.Gap = res.Gap
 		os, _ := renderStringify(o, olog)
 		return s, os, true
+	}
+	// "livekeys": JO skips a member of K that a callback deleted before its turn
+	// (for-in semantics) instead of calling Str / the replacer for it
+	{
+		h := &hostModel{}
+		mv := c.n.toModel(h)
+		res := rj.StringifySkipDeleted(mv, c.rep.model(h), c.sp.model(h))
+		if s, _ := renderStringify(res, h.log); s == obs {
+			return "livekeys"
+		}
 	}
 	type cand struct {
 		name          string
